@@ -10,22 +10,27 @@ Obligations (every `theorem` directly in `namespace DendroModel.C03` of this fil
   are facts about pointers and are proved only where a heap refinement exists (below).  These two theorems say
   nothing about nodes being KEPT — that is `step_keeps_leaves_partial`.  An operation that raises keeps the state by
   construction of `run` (the model has no partially mutated states; the harness checks the real tree after a raise).
-* `step_keeps_leaves`, `history_keeps_leaves` — clause (b) in identity form for EVERY operation (shuffle_taxa apart)
-  and every history: on a tree without shared nodes, a taxon-bearing leaf the operation was not asked to remove (or to
+* `step_keeps_leaves`, `history_keeps_leaves` — the NOTHING-LOST half of clause (b), in identity form, for every
+  operation (shuffle_taxa apart) and every history: on a tree without shared nodes, a taxon-bearing leaf the operation was not asked to remove (or to
   hang a child under) is still a leaf, same node, same taxon.  `step_keeps_leaves_partial` /
   `history_keeps_leaves_partial` (14 operations, no well-formedness hypothesis) are kept as they were.
+* `step_no_new_node_taxon`, `step_no_new_leaf` — the NOTHING-GAINED half: no node acquires a taxon; and, when no internal
+  node carries a taxon (explicit hypothesis `InnerUntaxed`; false without it), no taxon-bearing leaf appears except on
+  nodes the operation created.
 * `shuffle_keeps_leaf_taxa` — shuffle_taxa permutes the leaf taxa (`drawTaxa` is a permutation).
-* `addChild_repr`, `insertChild_repr` — heap layer: `add_child` / `insert_child` of a fresh node refine the tree-level
-  attachment.
+* `addChild_repr`, `insertChild_repr`, `addChild_refines` — heap layer: `add_child` / `insert_child` of a NEW childless
+  node refine the tree-level attachment (end to end from `ofTree`).
 * `suppress_keeps_leaf_taxa` — unifurcation suppression keeps the left-to-right list of leaf taxa.
 * `ofTree_repr`, `removeChild_repr`, `removeChild_frame`, `removeChild_refines` — heap layer: the pointer-level
   `remove_child` refines the tree-level operation (result represented, removed node parentless, frame property).
 * `polytomize_fixpoint`, `dropLeavesFix_fixpoint` — the fuel of two bounded loops suffices.
 
 NOT proved here (the definitions exist, are executable and are compared with the code on every run, but carry no
-theorem): heap refinement of `add_child`, `insert_child`, the `suppress_unifurcations` branch of `remove_child`, the
-`parent_node` setter, `Edge.collapse`, `Edge.invert` and the inversion chain of `reseed_at`; fuel sufficiency of the
-`filter_leaf_nodes` loop and of `pruneUp`; clause (c) (masks are outside this model — decided by the oracle).
+theorem): heap refinement of the `suppress_unifurcations` branch of `remove_child`, the `parent_node` setter,
+`Edge.collapse`, `Edge.invert`, the inversion chain of `reseed_at`, and of `add_child` / `insert_child` of a node that
+already is a child or is a re-attached subtree (`addChild_repr` / `insertChild_repr` / `addChild_refines` cover a NEW
+childless node only); fuel sufficiency of the `filter_leaf_nodes` loop and of `pruneUp`; the error clause (no partially
+mutated state exists in the model); clause (c) (masks are outside this model — decided by the oracle).
 Helper lemmas are in `DendroModel.C03.Aux` / `.HeapAux` / `.Leaves`. -/
 namespace DendroModel.C03.Aux
 open DendroModel DendroModel.C03
@@ -1891,6 +1896,775 @@ end
 end DendroModel.C03.Aux
 
 
+namespace DendroModel.C03.AuxP
+open DendroModel DendroModel.C03 DendroModel.C03.Aux
+
+/-- number of nodes of `t` that are node `p.1` AND carry taxon `p.2` (at any position, leaf or not) -/
+def pc (p : Nat × Nat) (t : T) : Nat := ((T.nodes t).map (fun n => (n.id, n.taxon))).count (p.1, some p.2)
+def pcL (p : Nat × Nat) (l : List T) : Nat := ((T.nodesL l).map (fun n => (n.id, n.taxon))).count (p.1, some p.2)
+
+@[simp] theorem pc_node (i : Nat × Nat) (j : Nat) (x l s cs) :
+    pc i (.node j x l s cs) = pcL i cs + (if j = i.1 ∧ x = some i.2 then 1 else 0) := by
+  simp only [pc, pcL, T.nodes, List.map_cons, List.count_cons, T.id, T.taxon]
+  congr 1
+  by_cases h : j = i.1 ∧ x = some i.2
+  · simp [h]
+  · simp only [h, if_false]
+    have : ((j, x) == (i.1, some i.2)) = false := by
+      simp only [beq_eq_false_iff_ne, ne_eq, Prod.mk.injEq]; exact h
+    simp [this]
+@[simp] theorem pcL_nil (i : Nat × Nat) : pcL i [] = 0 := by simp [pcL, T.nodesL]
+@[simp] theorem pcL_cons (i : Nat × Nat) (c : T) (cs : List T) : pcL i (c :: cs) = pc i c + pcL i cs := by
+  simp [pc, pcL, T.nodesL, List.count_append]
+@[simp] theorem pcL_append (i : Nat × Nat) (a b : List T) : pcL i (a ++ b) = pcL i a + pcL i b := by
+  induction a with
+  | nil => simp
+  | cons x xs ih => simp [ih]; omega
+theorem pc_eq (i : Nat × Nat) (t : T) : pc i t = pcL i t.cs + (if t.id = i.1 ∧ t.taxon = some i.2 then 1 else 0) := by
+  cases t; simp only [T.cs, T.id, T.taxon, pc_node]; rfl
+@[simp] theorem pc_withLen (i : Nat × Nat) (t : T) (l) : pc i (t.withLen l) = pc i t := by
+  cases t; simp [T.withLen]
+@[simp] theorem taxon_withLen (t : T) (l) : (t.withLen l).taxon = t.taxon := by cases t; rfl
+@[simp] theorem pc_withCs (i : Nat × Nat) (t : T) (cs) :
+    pc i (t.withCs cs) = pcL i cs + (if t.id = i.1 ∧ t.taxon = some i.2 then 1 else 0) := by
+  cases t; simp only [T.withCs, T.id, T.taxon, pc_node]; rfl
+
+/-! ### splice / modify -/
+mutual
+theorem splice_le (c : Nat) (f : T → List T) (hf : ∀ x i, pcL i (f x) ≤ pc i x) :
+    ∀ (t : T) (i : Nat × Nat), pc i (splice c f t) ≤ pc i t
+  | .node j x l s cs, i => by
+      have := spliceL_le c f hf cs i
+      simp [splice]; omega
+theorem spliceL_le (c : Nat) (f : T → List T) (hf : ∀ x i, pcL i (f x) ≤ pc i x) :
+    ∀ (cs : List T) (i : Nat × Nat), pcL i (spliceL c f cs) ≤ pcL i cs
+  | [], i => by simp [spliceL]
+  | x :: xs, i => by
+      simp only [spliceL]
+      split
+      · have := hf x i; simp; omega
+      · have := splice_le c f hf x i; have := spliceL_le c f hf xs i; simp; omega
+end
+
+mutual
+theorem modify_le (p : Nat) (f : T → T) (hf : ∀ x i, pc i (f x) ≤ pc i x) :
+    ∀ (t : T) (i : Nat × Nat), pc i (modify p f t) ≤ pc i t
+  | .node j x l s cs, i => by
+      simp only [modify]
+      split
+      · exact hf _ i
+      · have := modifyL_le p f hf cs i; simp; omega
+theorem modifyL_le (p : Nat) (f : T → T) (hf : ∀ x i, pc i (f x) ≤ pc i x) :
+    ∀ (cs : List T) (i : Nat × Nat), pcL i (modifyL p f cs) ≤ pcL i cs
+  | [], i => by simp [modifyL]
+  | x :: xs, i => by
+      have := modify_le p f hf x i; have := modifyL_le p f hf xs i
+      simp [modifyL]; omega
+end
+
+/- `f` may add up to `k i` occurrences of `i` at each node named `p` -/
+mutual
+theorem modify_add (p : Nat) (f : T → T) (k : Nat × Nat → Nat) (hf : ∀ x i, pc i (f x) ≤ pc i x + k i) :
+    ∀ (t : T) (i : Nat × Nat), pc i (modify p f t) ≤ pc i t + cnt p t * k i
+  | .node j x l s cs, i => by
+      simp only [modify]
+      split
+      · rename_i h
+        have hj : j = p := by simpa using h
+        have := hf (.node j x l s cs) i
+        have h1 : 1 ≤ cnt p (.node j x l s cs) := by simp [hj]
+        have : k i ≤ cnt p (.node j x l s cs) * k i := Nat.le_mul_of_pos_left _ h1
+        omega
+      · rename_i h
+        have hj : ¬ j = p := by simpa using h
+        have := modifyL_add p f k hf cs i
+        simp [hj]; omega
+theorem modifyL_add (p : Nat) (f : T → T) (k : Nat × Nat → Nat) (hf : ∀ x i, pc i (f x) ≤ pc i x + k i) :
+    ∀ (cs : List T) (i : Nat × Nat), pcL i (modifyL p f cs) ≤ pcL i cs + cntL p cs * k i
+  | [], i => by simp [modifyL]
+  | x :: xs, i => by
+      have := modify_add p f k hf x i; have := modifyL_add p f k hf xs i
+      simp [modifyL, Nat.add_mul]; omega
+end
+
+
+theorem pcL_ite_le (i : Nat × Nat) (b : Bool) (x : T) : pcL i (if b then [] else [x]) ≤ pc i x := by
+  cases b <;> simp
+
+/-! ### clean-up steps never duplicate a node -/
+mutual
+theorem sup_le : ∀ (t : T) (i : Nat × Nat), pc i (sup t) ≤ pc i t
+  | .node j x l s cs, i => by
+      have h := supL_le cs i
+      simp only [sup]
+      split
+      · rename_i c hc
+        rw [hc] at h; simp at h ⊢; omega
+      · simp; omega
+theorem supL_le : ∀ (cs : List T) (i : Nat × Nat), pcL i (supL cs) ≤ pcL i cs
+  | [], i => by simp [supL]
+  | c :: cs, i => by
+      have := sup_le c i; have := supL_le cs i
+      simp [supL]; omega
+end
+
+theorem collapseBasal_le (t t' : T) (h : collapseBasal t = some t') (i : Nat × Nat) : pc i t' ≤ pc i t := by
+  unfold collapseBasal at h
+  split at h
+  · rename_i a b hcs
+    have ha := pc_eq i a; have hb := pc_eq i b
+    rw [pc_eq i t, hcs]
+    split at h
+    · injection h with h; subst h
+      simp; omega
+    · split at h
+      · injection h with h; subst h
+        simp; omega
+      · cases h
+  · cases h
+
+theorem collapseBasalSt_le (su : Bool) (s : St) (i : Nat × Nat) : pc i (collapseBasalSt su s).t ≤ pc i s.t := by
+  unfold collapseBasalSt
+  split
+  · rename_i t' h; exact collapseBasal_le _ _ h i
+  · exact Nat.le_refl _
+
+theorem encodeStruct_le (a b : Bool) (s : St) (i : Nat × Nat) : pc i (encodeStruct a b s).t ≤ pc i s.t := by
+  unfold encodeStruct
+  have h1 := collapseBasalSt_le true s i
+  split
+  · split
+    · exact Nat.le_trans (sup_le _ i) h1
+    · exact h1
+  · split
+    · exact sup_le _ i
+    · exact Nat.le_refl _
+
+theorem finish_le (a b : Bool) (s : St) (i : Nat × Nat) : pc i (finish a b s).t ≤ pc i s.t := by
+  unfold finish
+  have h1 := sup_le s.t i
+  split
+  · split
+    · exact Nat.le_trans (encodeStruct_le _ _ _ i) h1
+    · exact h1
+  · split
+    · exact encodeStruct_le _ _ _ i
+    · exact Nat.le_refl _
+
+theorem polyStep_le (t t' : T) (h : polyStep t = some t') (i : Nat × Nat) : pc i t' ≤ pc i t := by
+  unfold polyStep at h
+  split at h
+  · rename_i l hcs
+    have hl := pc_eq i l
+    split at h
+    · injection h with h; subst h
+      rw [pc_eq i t, hcs]; simp; omega
+    · cases h
+  · rename_i l r hcs
+    have hl := pc_eq i l; have hr := pc_eq i r
+    split at h
+    · injection h with h; subst h
+      rw [pc_eq i t, hcs]; simp; omega
+    · split at h
+      · injection h with h; subst h
+        rw [pc_eq i t, hcs]; simp; omega
+      · cases h
+  · cases h
+
+theorem polytomize_le : ∀ (f : Nat) (t : T) (i : Nat × Nat), pc i (polytomize f t) ≤ pc i t
+  | 0, t, i => by simp [polytomize]
+  | f + 1, t, i => by
+      simp only [polytomize]
+      split
+      · rename_i t' h
+        exact Nat.le_trans (polytomize_le f t' i) (polyStep_le _ _ h i)
+      · exact Nat.le_refl _
+
+mutual
+theorem cu_le (thr : Frac) : ∀ (t : T) (i : Nat × Nat), pc i (cu thr t) ≤ pc i t
+  | .node j x l s cs, i => by
+      have := cuL_le thr cs i
+      simp [cu]; omega
+theorem cuL_le (thr : Frac) : ∀ (cs : List T) (i : Nat × Nat), pcL i (cuL thr cs) ≤ pcL i cs
+  | [], i => by simp [cuL]
+  | c :: cs, i => by
+      have h1 := cu_le thr c i; have h2 := cuL_le thr cs i
+      simp only [cuL]
+      split
+      · rw [pc_eq i (cu thr c)] at h1; simp; omega
+      · simp; omega
+end
+
+mutual
+theorem dropLeaves_le (keep : T → Bool) : ∀ (t : T) (i : Nat × Nat), pc i (dropLeaves keep t) ≤ pc i t
+  | .node j x l s cs, i => by
+      have := dropLeavesL_le keep cs i
+      simp [dropLeaves]; omega
+theorem dropLeavesL_le (keep : T → Bool) : ∀ (cs : List T) (i : Nat × Nat), pcL i (dropLeavesL keep cs) ≤ pcL i cs
+  | [], i => by simp [dropLeavesL]
+  | c :: cs, i => by
+      have h1 := dropLeaves_le keep c i; have h2 := dropLeavesL_le keep cs i
+      simp only [dropLeavesL]
+      split
+      · split <;> simp <;> omega
+      · simp; omega
+end
+
+theorem dropLeavesFix_le (keep : T → Bool) : ∀ (f : Nat) (t : T) (i : Nat × Nat), pc i (dropLeavesFix keep f t) ≤ pc i t
+  | 0, t, i => by simp [dropLeavesFix]
+  | f + 1, t, i => by
+      simp only [dropLeavesFix]
+      split
+      · exact Nat.le_refl _
+      · exact Nat.le_trans (dropLeavesFix_le keep f _ i) (dropLeaves_le keep t i)
+
+mutual
+theorem pt_le (bad : Nat → Bool) : ∀ (t : T) (i : Nat × Nat), pc i (pt bad t) ≤ pc i t
+  | .node j x l s cs, i => by
+      have := ptL_le bad cs i
+      simp [pt]; omega
+theorem ptL_le (bad : Nat → Bool) : ∀ (cs : List T) (i : Nat × Nat), pcL i (ptL bad cs) ≤ pcL i cs
+  | [], i => by simp [ptL]
+  | c :: cs, i => by
+      have h1 := pt_le bad c i; have h2 := ptL_le bad cs i
+      simp only [ptL]
+      generalize ptDrop bad c (pt bad c) = b
+      have := pcL_ite_le i b (pt bad c)
+      rw [pcL_append, pcL_cons]; omega
+end
+
+/-! ### re-seeding is a rearrangement -/
+mutual
+theorem reseedGo_cnt (target : Nat) (rl : Option Frac) :
+    ∀ (t : T) (acc : List T) (r : T), reseedGo target rl acc t = some r → ∀ i, pc i r = pc i t + pcL i acc
+  | .node j x l s cs, acc, r, h, i => by
+      simp only [reseedGo] at h
+      split at h
+      · injection h with h; subst h; simp; omega
+      · have := reseedGoL_cnt target rl j x s cs acc [] r h i
+        simp at this ⊢; omega
+theorem reseedGoL_cnt (target : Nat) (rl : Option Frac) (j : Nat) (x : Option Nat) (s : Option String) :
+    ∀ (post acc pre : List T) (r : T), reseedGoL target rl j x s acc pre post = some r →
+      ∀ i, pc i r = pcL i pre + pcL i post + pcL i acc + (if j = i.1 ∧ x = some i.2 then 1 else 0)
+  | [], acc, pre, r, h, i => by simp [reseedGoL] at h
+  | c :: post, acc, pre, r, h, i => by
+      simp only [reseedGoL] at h
+      split at h
+      · rename_i r' hr
+        injection h with h; subst h
+        have := reseedGo_cnt target rl c _ _ hr i
+        simp at this ⊢; omega
+      · have := reseedGoL_cnt target rl j x s post acc (pre ++ [c]) r h i
+        simp at this ⊢; omega
+end
+
+theorem reseedCore_le (target : Nat) (b : Bool) (t : T) (i : Nat × Nat) : pc i (reseedCore target b t) ≤ pc i t := by
+  unfold reseedCore
+  split
+  · exact Nat.le_refl _
+  · split
+    · exact Nat.le_refl _
+    · split
+      · exact Nat.le_refl _
+      · rename_i t1 h1
+        have h := reseedGo_cnt target t.len t [] t1 h1 i
+        simp at h
+        split
+        · split
+          · rename_i c hc
+            have hc' := pc_eq i c
+            rw [pc_eq i t1, hc] at h; simp at h ⊢; omega
+          · omega
+        · omega
+
+/-! ### sorting and rotating are permutations -/
+theorem insertBy_cnt (le : T → T → Bool) (x : T) : ∀ (l : List T) (i : Nat × Nat), pcL i (insertBy le x l) = pc i x + pcL i l
+  | [], i => by simp [insertBy]
+  | y :: ys, i => by
+      simp only [insertBy]
+      split
+      · simp
+      · have := insertBy_cnt le x ys i; simp; omega
+
+theorem sortBy_cnt (le : T → T → Bool) : ∀ (l : List T) (i : Nat × Nat), pcL i (sortBy le l) = pcL i l
+  | [], i => by simp [sortBy]
+  | y :: ys, i => by
+      have := sortBy_cnt le ys i
+      simp only [sortBy, List.foldr_cons] at this ⊢
+      rw [insertBy_cnt]; simp; omega
+
+mutual
+theorem sortAll_cnt (le : T → T → Bool) : ∀ (t : T) (i : Nat × Nat), pc i (sortAll le t) = pc i t
+  | .node j x l s cs, i => by
+      have := sortAllL_cnt le cs i
+      simp [sortAll, sortBy_cnt]; omega
+theorem sortAllL_cnt (le : T → T → Bool) : ∀ (cs : List T) (i : Nat × Nat), pcL i (sortAllL le cs) = pcL i cs
+  | [], i => by simp [sortAllL]
+  | c :: cs, i => by
+      have := sortAll_cnt le c i; have := sortAllL_cnt le cs i
+      simp [sortAllL]; omega
+end
+
+theorem pcL_reverse (i : Nat × Nat) (l : List T) : pcL i l.reverse = pcL i l := by
+  induction l with
+  | nil => simp
+  | cons x xs ih => simp [ih]; omega
+
+theorem pcL_drop_take (i : Nat × Nat) (n : Nat) (l : List T) : pcL i (l.drop n ++ l.take n) = pcL i l := by
+  have h : pcL i (l.take n ++ l.drop n) = pcL i l := by rw [List.take_append_drop]
+  rw [pcL_append] at h ⊢; omega
+
+mutual
+theorem rotate_cnt (m : Nat) : ∀ (t : T) (i : Nat × Nat), pc i (rotate m t) = pc i t
+  | .node j x l s cs, i => by
+      have := rotateL_cnt m cs i
+      simp only [rotate]
+      split
+      · simp [pcL_reverse]; omega
+      · split
+        · simp only [pc_node, pcL_drop_take]; omega
+        · simp; omega
+theorem rotateL_cnt (m : Nat) : ∀ (cs : List T) (i : Nat × Nat), pcL i (rotateL m cs) = pcL i cs
+  | [], i => by simp [rotateL]
+  | c :: cs, i => by
+      have := rotate_cnt m c i; have := rotateL_cnt m cs i
+      simp [rotateL]; omega
+end
+
+
+theorem pcL_insertAt (i : Nat × Nat) (idx : Nat) (x : T) (l : List T) : pcL i (insertAt idx x l) = pc i x + pcL i l := by
+  have h : pcL i (l.take idx ++ l.drop idx) = pcL i l := by rw [List.take_append_drop]
+  unfold insertAt
+  rw [pcL_append] at h; rw [pcL_append, pcL_cons]; omega
+
+theorem addChild_cnt (p : Nat) (sub t : T) (i : Nat × Nat) : pc i (addChild p sub t) ≤ pc i t + cnt p t * pc i sub := by
+  unfold addChild
+  apply modify_add p _ (fun i => pc i sub)
+  intro x i
+  rw [pc_withCs, pcL_append, pc_eq i x]; simp; omega
+
+theorem insertChild_cnt (p idx : Nat) (sub t : T) (i : Nat × Nat) :
+    pc i (insertChild p idx sub t) ≤ pc i t + cnt p t * pc i sub := by
+  unfold insertChild
+  apply modify_add p _ (fun i => pc i sub)
+  intro x i
+  rw [pc_withCs, pcL_insertAt, pc_eq i x]; omega
+
+
+/-! ### detaching and re-attaching -/
+mutual
+theorem splice_remove (c : Nat) : ∀ (t sub : T), t.id ≠ c → T.find? c t = some sub →
+    ∀ i, pc i (splice c (fun _ => []) t) + pc i sub ≤ pc i t
+  | .node j x l s cs, sub, hne, hf, i => by
+      simp only [T.id] at hne
+      have hcj : (c == j) = false := by simp; omega
+      simp only [T.find?, hcj] at hf
+      have := spliceL_remove c cs sub hf i
+      simp [splice]; omega
+theorem spliceL_remove (c : Nat) : ∀ (cs : List T) (sub : T), T.findL? c cs = some sub →
+    ∀ i, pcL i (spliceL c (fun _ => []) cs) + pc i sub ≤ pcL i cs
+  | [], sub, hf, i => by simp [T.findL?] at hf
+  | x :: xs, sub, hf, i => by
+      simp only [T.findL?] at hf
+      simp only [spliceL]
+      by_cases hx : x.id = c
+      · have hfx : T.find? c x = some x := by
+          cases x with
+          | node j a b d e => simp only [T.id] at hx; simp [T.find?, hx]
+        rw [hfx] at hf; injection hf with hf; subst hf
+        simp [hx]; omega
+      · have hb : (x.id == c) = false := by simp [hx]
+        simp only [hb]
+        split at hf
+        · rename_i r hr
+          injection hf with hf; subst hf
+          have := splice_remove c x r hx hr i
+          have := spliceL_le c (fun _ => []) (by intro y k; simp) xs i
+          simp; omega
+        · have := spliceL_remove c xs sub hf i
+          have := splice_le c (fun _ => []) (by intro y k; simp) x i
+          simp; omega
+end
+
+
+theorem pcL_filter_le (p : T → Bool) : ∀ (l : List T) (i : Nat × Nat), pcL i (l.filter p) ≤ pcL i l
+  | [], i => by simp
+  | y :: ys, i => by
+      have := pcL_filter_le p ys i
+      simp only [List.filter_cons]
+      split <;> simp <;> omega
+
+theorem find_filter_cnt (og : Nat) : ∀ (l : List T) (sub : T), l.find? (fun x => x.id == og) = some sub →
+    ∀ i, pc i sub + pcL i (l.filter (fun x => x.id != og)) ≤ pcL i l
+  | [], sub, h, i => by simp at h
+  | x :: xs, sub, h, i => by
+      have hsub := pcL_filter_le (fun x => x.id != og) xs
+      by_cases hx : x.id = og
+      · simp [List.find?_cons, hx] at h; subst h
+        have := hsub i
+        simp [List.filter_cons, hx]; omega
+      · have hb : (x.id == og) = false := by simp [hx]
+        simp only [List.find?_cons, hb] at h
+        have := find_filter_cnt og xs sub h i
+        simp [List.filter_cons, hx]; omega
+
+
+mutual
+theorem find_le (c : Nat) : ∀ (t sub : T), T.find? c t = some sub → ∀ i, pc i sub ≤ pc i t
+  | .node j x l s cs, sub, hf, i => by
+      simp only [T.find?] at hf
+      split at hf
+      · injection hf with hf; subst hf; exact Nat.le_refl _
+      · have := findL_le c cs sub hf i; simp; omega
+theorem findL_le (c : Nat) : ∀ (cs : List T) (sub : T), T.findL? c cs = some sub → ∀ i, pc i sub ≤ pcL i cs
+  | [], sub, hf, i => by simp [T.findL?] at hf
+  | x :: xs, sub, hf, i => by
+      simp only [T.findL?] at hf
+      split at hf
+      · rename_i r hr; injection hf with hf; subst hf
+        have := find_le c x _ hr i; simp; omega
+      · have := findL_le c xs sub hf i; simp; omega
+end
+
+mutual
+theorem splice_exact (c : Nat) (f : T → List T) : ∀ (t sub : T), t.id ≠ c → T.find? c t = some sub → cnt c t ≤ 1 →
+    ∀ i, pc i (splice c f t) + pc i sub = pc i t + pcL i (f sub)
+  | .node j x l s cs, sub, hne, hf, h1, i => by
+      simp only [T.id] at hne
+      have hcj : (c == j) = false := by simp; omega
+      simp only [T.find?, hcj] at hf
+      have h1' : cntL c cs ≤ 1 := by simp [hne] at h1; exact h1
+      have := spliceL_exact c f cs sub hf h1' i
+      simp [splice]; omega
+theorem spliceL_exact (c : Nat) (f : T → List T) : ∀ (cs : List T) (sub : T), T.findL? c cs = some sub → cntL c cs ≤ 1 →
+    ∀ i, pcL i (spliceL c f cs) + pc i sub = pcL i cs + pcL i (f sub)
+  | [], sub, hf, _, i => by simp [T.findL?] at hf
+  | x :: xs, sub, hf, h1, i => by
+      simp only [T.findL?] at hf
+      simp only [spliceL]
+      simp at h1
+      by_cases hx : x.id = c
+      · have hfx : T.find? c x = some x := by
+          cases x with
+          | node j a b d e => simp only [T.id] at hx; simp [T.find?, hx]
+        rw [hfx] at hf; injection hf with hf; subst hf
+        simp [hx]; omega
+      · have hb : (x.id == c) = false := by simp [hx]
+        simp only [hb]
+        split at hf
+        · rename_i r hr
+          injection hf with hf; subst hf
+          have hp := find_pos c x r hr
+          have := splice_exact c f x r hx hr (by omega) i
+          rw [spliceL_notin c f xs (by omega)]
+          simp; omega
+        · rename_i hnone
+          have := spliceL_exact c f xs sub hf (by omega) i
+          have hx0 : cnt c x = 0 := by
+            -- `find?` fails on `x`, so `c` does not occur in it
+            exact find_none_cnt c x hnone
+          rw [splice_notin c f x hx0]
+          simp; omega
+end
+
+/-! ### per-operation bounds -/
+theorem removeChild_le (p c : Nat) (sp : Bool) (t t' : T) (hw : WF t) (h : removeChild p c sp t = .ok t') (i : Nat × Nat) :
+    pc i t' ≤ pc i t := by
+  have hle := splice_le c (fun _ => []) (by intro y k; simp) t
+  unfold removeChild at h
+  split at h
+  · cases h
+  · simp only at h
+    split at h
+    · injection h with h; subst h; exact hle i
+    · split at h
+      · rename_i hp
+        split at h
+        · rename_i child hfind
+          injection h with h; subst h
+          -- the node `p` of `t1` has exactly the child `child`
+          cases hf : T.find? p (splice c (fun _ => []) t) with
+          | none => simp [hf] at hfind
+          | some n =>
+            simp [hf] at hfind
+            have hid : (splice c (fun _ => []) t).id ≠ p := by
+              cases t with
+              | node j a b d e => simp [splice, T.id] at hp ⊢; omega
+            have h1 : cnt p (splice c (fun _ => []) t) ≤ 1 := Nat.le_trans (Aux.splice_le c (fun _ => []) (by intro y k; simp) t p) ((wf_iff t).mp hw p)
+            have := splice_exact p (fun n => [child.withLen (tryAdd child.len n.len)]) _ n hid hf h1 i
+            have hn := pc_eq i n
+            rw [hfind] at hn
+            simp at this hn; have := hle i; omega
+        · injection h with h; subst h; exact hle i
+      · split at h
+        · rename_i a b hcs
+          have h0 := pc_eq i (splice c (fun _ => []) t)
+          rw [hcs] at h0
+          have ha := pc_eq i a; have hb := pc_eq i b
+          split at h
+          · injection h with h; subst h; have := hle i; simp at h0 ⊢; omega
+          · split at h
+            · injection h with h; subst h; have := hle i; simp at h0 ⊢; omega
+            · injection h with h; subst h; exact hle i
+        · injection h with h; subst h; exact hle i
+
+theorem pcL_map_eq (g : T → T) (hg : ∀ x i, pc i (g x) = pc i x) : ∀ (l : List T) (i : Nat × Nat), pcL i (l.map g) = pcL i l
+  | [], i => by simp
+  | x :: xs, i => by simp [hg x i, pcL_map_eq g hg xs i]
+
+theorem edgeCollapse_le (c : Nat) (adj : Bool) (t t' : T) (h : edgeCollapse c adj t = .ok t') (i : Nat × Nat) :
+    pc i t' ≤ pc i t := by
+  unfold edgeCollapse at h
+  split at h
+  · injection h with h; subst h; exact Nat.le_refl _
+  · split at h
+    · injection h with h; subst h; exact Nat.le_refl _
+    · split at h
+      · cases h
+      · injection h with h; subst h
+        apply splice_le
+        intro x k
+        unfold collapseKids
+        rw [pcL_map_eq]
+        · rw [pc_eq k x]; omega
+        · intro y k'
+          split
+          · simp
+          · rfl
+
+mutual
+theorem leaves_le : ∀ (t : T) (i : Nat × Nat), pcL i t.leaves ≤ pc i t
+  | .node j x l s [], i => by simp [T.leaves]
+  | .node j x l s (c :: cs), i => by
+      have := leavesL_le (c :: cs) i
+      simp only [T.leaves, pc_node]; omega
+theorem leavesL_le : ∀ (cs : List T) (i : Nat × Nat), pcL i (T.leavesL cs) ≤ pcL i cs
+  | [], i => by simp [T.leavesL]
+  | c :: cs, i => by
+      have := leaves_le c i; have := leavesL_le cs i
+      simp [T.leavesL]; omega
+end
+
+theorem leaves_le_cs (t : T) (h : t.cs.isEmpty = false) (i : Nat × Nat) : pcL i t.leaves ≤ pcL i t.cs := by
+  cases t with
+  | node j x l s cs =>
+    cases cs with
+    | nil => simp [T.cs] at h
+    | cons c cs => simp only [T.leaves, T.cs]; exact leavesL_le _ i
+
+theorem collapseClade_le (c : Nat) (t : T) (i : Nat × Nat) : pc i (collapseClade c t) ≤ pc i t := by
+  unfold collapseClade
+  apply modify_le
+  intro x k
+  split
+  · exact Nat.le_refl _
+  · rename_i h
+    have := leaves_le_cs x (by simpa using h) k
+    rw [pc_withCs, pc_eq k x]; omega
+
+theorem insertMove_le (p idx c : Nat) (t : T) (i : Nat × Nat) : pc i (insertMove p idx c t) ≤ pc i t := by
+  unfold insertMove
+  apply modify_le
+  intro x k
+  split
+  · rename_i cur sub _ hfind
+    split
+    · exact Nat.le_refl _
+    · have := find_filter_cnt c x.cs sub hfind k
+      rw [pc_withCs, pcL_insertAt, pc_eq k x]; omega
+  · exact Nat.le_refl _
+
+theorem reseedAt_le (target : Nat) (a b : Bool) (s : St) (i : Nat × Nat) : pc i (reseedAt target a b s).t ≤ pc i s.t := by
+  unfold reseedAt
+  exact Nat.le_trans (encodeStruct_le _ _ _ i) (reseedCore_le target b s.t i)
+
+theorem rerootAtNode_le (target : Nat) (ub a b : Bool) (s : St) (i : Nat × Nat) :
+    pc i (rerootAtNode target ub a b s).t ≤ pc i s.t := by
+  unfold rerootAtNode
+  have h1 := reseedAt_le target false a s i
+  split
+  · exact Nat.le_trans (encodeStruct_le _ _ _ i) h1
+  · exact h1
+
+theorem moveFront_le (og : Nat) (t : T) (i : Nat × Nat) : pc i (moveFront og t) ≤ pc i t := by
+  unfold moveFront
+  split
+  · rename_i sub hfind
+    have := find_filter_cnt og _ sub hfind i
+    rw [pc_withCs, pc_eq i t]; simp; omega
+  · exact Nat.le_refl _
+
+theorem toOutgroup_le (og : Nat) (sp : Bool) (s : St) (i : Nat × Nat) : pc i (toOutgroup og sp s).t ≤ pc i s.t := by
+  unfold toOutgroup
+  split
+  · exact Nat.le_refl _
+  · rename_i p _
+    have h2 : pc i (moveFront og (reseedCore p false s.t)) ≤ pc i s.t :=
+      Nat.le_trans (moveFront_le og _ i) (reseedCore_le p false s.t i)
+    simp only
+    generalize moveFront og (reseedCore p false s.t) = t2 at h2 ⊢
+    have h3 : ∀ s3 : St, pc i s3.t ≤ pc i t2 →
+        pc i (if sp = true then { s3 with t := sup s3.t } else s3).t ≤ pc i s.t := by
+      intro s3 h; split
+      · exact Nat.le_trans (sup_le _ i) (by omega)
+      · omega
+    apply h3
+    split
+    · split
+      · exact collapseBasalSt_le _ _ i
+      · exact Nat.le_refl _
+    · exact Nat.le_refl _
+
+theorem loop_le (recursive : Bool) (keep : T → Bool) : ∀ (f : Nat) (t t' : T),
+    filterLeaves.loop recursive keep f t = .ok t' → ∀ i, pc i t' ≤ pc i t
+  | 0, t, t', h, i => by simp [filterLeaves.loop] at h; subst h; exact Nat.le_refl _
+  | f + 1, t, t', h, i => by
+      simp only [filterLeaves.loop] at h
+      split at h
+      · split at h
+        · injection h with h; subst h; exact Nat.le_refl _
+        · cases h
+      · split at h
+        · injection h with h; subst h; exact dropLeaves_le keep t i
+        · exact Nat.le_trans (loop_le recursive keep f _ t' h i) (dropLeaves_le keep t i)
+
+theorem pruneUp_le : ∀ (f c : Nat) (t : T) (i : Nat × Nat), pc i (pruneUp f c t) ≤ pc i t
+  | 0, c, t, i => by
+      simp only [pruneUp]; exact splice_le c (fun _ => []) (by intro y k; simp) t i
+  | f + 1, c, t, i => by
+      have h1 := splice_le c (fun _ => []) (by intro y k; simp) t i
+      simp only [pruneUp]
+      split
+      · exact Nat.le_refl _
+      · split
+        · split
+          · exact Nat.le_trans (pruneUp_le f _ _ i) h1
+          · exact h1
+        · exact h1
+
+theorem pruneNoTaxa_le (r ub sp : Bool) (s : St) (i : Nat × Nat) : pc i (pruneNoTaxa r ub sp s).t ≤ pc i s.t := by
+  unfold pruneNoTaxa
+  apply Nat.le_trans (finish_le _ _ _ i)
+  simp only
+  split
+  · exact dropLeavesFix_le _ _ _ i
+  · exact dropLeaves_le _ _ i
+
+/-! ### fresh nodes, resolve, regraft -/
+mutual
+theorem pc_le_cnt (i : Nat × Nat) : ∀ t : T, pc i t ≤ cnt i.1 t
+  | .node j x l s cs => by
+      have := pcL_le_cntL i cs
+      simp only [pc_node, cnt_node]
+      split <;> split <;> first | omega | (rename_i h1 h2; exact absurd h1.1 h2)
+theorem pcL_le_cntL (i : Nat × Nat) : ∀ cs : List T, pcL i cs ≤ cntL i.1 cs
+  | [] => by simp
+  | c :: cs => by have := pc_le_cnt i c; have := pcL_le_cntL i cs; simp; omega
+end
+
+theorem pc_fresh (t : T) (i : Nat × Nat) (h : maxId t < i.1) : pc i t = 0 := by
+  have := pc_le_cnt i t; have := cnt_fresh t i.1 h; omega
+
+theorem pc_shift_lt (k : Nat) (t : T) (i : Nat × Nat) (h : i.1 < k) : pc i (shiftIds k t) = 0 := by
+  have := pc_le_cnt i (shiftIds k t)
+  rw [cnt_shift] at this
+  have hk : ¬ k ≤ i.1 := by omega
+  simp [hk] at this; exact this
+
+theorem joinLoop_pc (limit : Nat) : ∀ (f : Nat) (cs : List T) (k : Nat) (i : Nat × Nat),
+    pcL i (joinLoop limit f cs k).1 ≤ pcL i cs
+  | 0, cs, k, i => by simp [joinLoop]
+  | f + 1, cs, k, i => by
+      simp only [joinLoop]
+      split
+      · split
+        · rename_i c1 c2 rest _
+          have := joinLoop_pc limit f (rest ++ [.node k none (some Frac.zero) none [c1, c2]]) (k + 1) i
+          simp at this ⊢; omega
+        · exact Nat.le_refl _
+      · exact Nat.le_refl _
+
+mutual
+theorem rp_pc (limit : Nat) : ∀ (t : T) (k : Nat) (i : Nat × Nat), pc i (rp limit t k).1 ≤ pc i t
+  | .node j x l s cs, k, i => by
+      have h1 := rpL_pc limit cs k i
+      have h2 := joinLoop_pc limit (rpL limit cs k).1.length (rpL limit cs k).1 (rpL limit cs k).2 i
+      simp only [rp, pc_node]; omega
+theorem rpL_pc (limit : Nat) : ∀ (cs : List T) (k : Nat) (i : Nat × Nat), pcL i (rpL limit cs k).1 ≤ pcL i cs
+  | [], k, i => by simp [rpL]
+  | c :: cs, k, i => by
+      have := rp_pc limit c k i; have := rpL_pc limit cs (rp limit c k).2 i
+      simp [rpL]; omega
+end
+
+/-- remove the subtree at `c`, hang `w` under `q`: no (id, taxon) pair appears that was not there, except what `w` adds
+beyond `sub` -/
+theorem regraft_pc {t sub w : T} {c q : Nat} (h : WF t) (hne : t.id ≠ c) (hf : T.find? c t = some sub)
+    (i : Nat × Nat) (hw : pc i w ≤ pc i sub) : pc i (addChild q w (splice c (fun _ => []) t)) ≤ pc i t := by
+  have hrm := splice_remove c t sub hne hf i
+  have hle := Aux.splice_le c (fun _ => []) (by intro y k; simp) t q
+  have h1 := addChild_cnt q w (splice c (fun _ => []) t) i
+  have hq : cnt q (splice c (fun _ => []) t) ≤ 1 := Nat.le_trans hle ((wf_iff t).mp h q)
+  have h4 : cnt q (splice c (fun _ => []) t) * pc i w ≤ 1 * pc i w := Nat.mul_le_mul_right _ hq
+  omega
+
+/-! ### when no internal node carries a taxon, the taxon-bearing nodes are exactly the taxon-bearing leaves -/
+mutual
+/-- no node that has children carries a taxon -/
+def InnerUntaxed : T → Prop
+  | .node _ x _ _ cs => (cs ≠ [] → x = none) ∧ InnerUntaxedL cs
+def InnerUntaxedL : List T → Prop
+  | [] => True
+  | c :: cs => InnerUntaxed c ∧ InnerUntaxedL cs
+end
+
+open Leaves in
+mutual
+theorem lc_le_pc (i : Nat × Nat) : ∀ t : T, lc i t ≤ pc i t
+  | .node j x l s [] => by
+      by_cases h : 1 ≤ lc i (.node j x l s [])
+      · obtain ⟨hx, hj⟩ := lc_leaf_pos i j x l s h
+        subst hx; subst hj
+        have hle : lc i (.node i.1 (some i.2) l s []) ≤ 1 := by
+          have h1 : (lpairs (.node i.1 (some i.2) l s [])).length ≤ 1 := by
+            simp only [lpairs, T.leaves]
+            exact Nat.le_trans (List.length_filterMap_le _ _) (by simp)
+          exact Nat.le_trans List.count_le_length h1
+        simp; omega
+      · simp; omega
+  | .node j x l s (c :: cs) => by
+      have := lcL_le_pcL i (c :: cs)
+      rw [lc_node_cons, ← lcL_cons, pc_node]; omega
+theorem lcL_le_pcL (i : Nat × Nat) : ∀ cs : List T, lcL i cs ≤ pcL i cs
+  | [] => by simp
+  | c :: cs => by have := lc_le_pc i c; have := lcL_le_pcL i cs; simp; omega
+end
+
+open Leaves in
+mutual
+theorem pc_le_lc (i : Nat × Nat) : ∀ t : T, InnerUntaxed t → pc i t ≤ lc i t
+  | .node j x l s [], _ => by
+      simp only [pc_node, pcL_nil, Nat.zero_add]
+      split
+      · rename_i h
+        simp [lc, lpairs, T.leaves, pairOf, T.taxon, T.id, h.1, h.2, List.filterMap_cons]
+      · exact Nat.zero_le _
+  | .node j x l s (c :: cs), h => by
+      simp only [InnerUntaxed] at h
+      have hx := h.1 (by simp)
+      have := pcL_le_lcL i (c :: cs) h.2
+      rw [lc_node_cons, ← lcL_cons, pc_node]; simp [hx]; simpa using this
+theorem pcL_le_lcL (i : Nat × Nat) : ∀ cs : List T, InnerUntaxedL cs → pcL i cs ≤ lcL i cs
+  | [], _ => by simp
+  | c :: cs, h => by
+      simp only [InnerUntaxedL] at h
+      have := pc_le_lc i c h.1; have := pcL_le_lcL i cs h.2; simp; omega
+end
+
+
+end DendroModel.C03.AuxP
+
+
 namespace DendroModel.C03
 open DendroModel DendroModel.C03.Aux
 
@@ -2247,6 +3021,17 @@ theorem insertChild_repr (h : Heap) (t : T) (p idx k : Nat) (x : Option Nat) (l 
     have := HeapAux.reprL_take hh q idx cs h1
     unfold insertAt
     exact HeapAux.reprL_append hh q _ _ this.1 (by simp only [ReprL]; exact ⟨h2, this.2⟩)
+
+/-- end to end for `add_child` / `insert_child` of a new node: from a well-formed tree, the pointer routines run on the
+tree's own heap (`ofTree`) yield heaps that represent what the tree-level model returns — the side conditions of
+`addChild_repr` / `insertChild_repr` on the heap are consequences of `k` being new (`ofTree_fresh`) -/
+theorem addChild_refines (t : T) (p idx k : Nat) (x : Option Nat) (l : Option Frac) (hw : WF t) (hk : k ∉ ids t)
+    (hpk : p ≠ k) :
+    Repr (Heap.addChild (Heap.ofTree none Heap.empty t) p k) none (addChild p (leafNode k x l) t) ∧
+    Repr (Heap.insertChild (Heap.ofTree none Heap.empty t) p idx k) none (insertChild p idx (leafNode k x l) t) := by
+  have hf := HeapAux.ofTree_fresh t hw k hk
+  exact ⟨addChild_repr _ t p k x l (ofTree_repr t hw) hw hk hpk hf.1 (hf.2 p),
+         insertChild_repr _ t p idx k x l (ofTree_repr t hw) hw hk hpk hf.1 (hf.2 p)⟩
 
 /-- ((A,B),(C,D)) -/
 def exTreeH : T :=
@@ -2654,5 +3439,230 @@ removal has reached its fixpoint — another pass removes nothing -/
 theorem dropLeavesFix_fixpoint (keep : T → Bool) (t : T) :
     (dropLeaves keep (dropLeavesFix keep t.size t)).size = (dropLeavesFix keep t.size t).size :=
   Aux.dropLeavesFix_fix keep t.size t (Nat.le_refl _)
+
+/-- **No taxon appears from nowhere.**  For every operation except `shuffle_taxa` (which moves taxa on purpose), on a
+tree without shared nodes: every node of the result that existed before (id ≤ `maxId`) and carries a taxon carried that
+same taxon before — `pc p` counts the nodes that are node `p.1` with taxon `p.2`, at any position. -/
+theorem step_no_new_node_taxon (s s' : St) (op : Op) (p : Nat × Nat) (hw : WF s.t)
+    (hsh : ∀ rs, op ≠ .shuffleTaxa rs) (hs : step s op = .ok s') (hp : p.1 ≤ maxId s.t) :
+    AuxP.pc p s'.t ≤ AuxP.pc p s.t := by
+  have hleaf : ∀ x l, AuxP.pc p (leafNode (maxId s.t + 1) x l) = 0 := by
+    intro x l
+    have := AuxP.pc_le_cnt p (leafNode (maxId s.t + 1) x l)
+    rw [cnt_leafNode] at this
+    have hne : ¬ maxId s.t + 1 = p.1 := by omega
+    simp [hne] at this; exact this
+  cases op with
+  | removeChild q c sp =>
+    simp only [step] at hs
+    split at hs
+    · cases hs
+    · split at hs
+      · rename_i t' ht
+        injection hs with hs; subst hs
+        exact AuxP.removeChild_le q c sp s.t t' hw ht p
+      · cases hs
+  | newChild q x l =>
+    simp only [step] at hs
+    split at hs
+    · cases hs
+    · injection hs with hs; subst hs
+      have := AuxP.addChild_cnt q (leafNode (maxId s.t + 1) x l) s.t p
+      rw [hleaf] at this; simpa using this
+  | insertNewChild q idx x l =>
+    simp only [step] at hs
+    split at hs
+    · cases hs
+    · injection hs with hs; subst hs
+      have := AuxP.insertChild_cnt q idx (leafNode (maxId s.t + 1) x l) s.t p
+      rw [hleaf] at this; simpa using this
+  | addSub q sub =>
+    simp only [step] at hs
+    split at hs
+    · cases hs
+    · injection hs with hs; subst hs
+      have := AuxP.addChild_cnt q (shiftIds (maxId s.t + 1) sub) s.t p
+      rw [AuxP.pc_shift_lt _ _ _ (by omega)] at this; simpa using this
+  | insertSub q idx sub =>
+    simp only [step] at hs
+    split at hs
+    · cases hs
+    · injection hs with hs; subst hs
+      have := AuxP.insertChild_cnt q idx (shiftIds (maxId s.t + 1) sub) s.t p
+      rw [AuxP.pc_shift_lt _ _ _ (by omega)] at this; simpa using this
+  | insertMove q idx c =>
+    simp only [step] at hs
+    split at hs
+    · cases hs
+    · injection hs with hs; subst hs; exact AuxP.insertMove_le q idx c s.t p
+  | setParent c q =>
+    simp only [step] at hs
+    split at hs
+    · cases hs
+    · rename_i sub hf
+      split at hs
+      · cases hs
+      · rename_i hg
+        injection hs with hs; subst hs
+        have hne : s.t.id ≠ c := by intro e; apply hg; simp [e]
+        simp only [setParent, hf]
+        exact AuxP.regraft_pc hw hne hf p (Nat.le_refl _)
+  | edgeCollapse c adj =>
+    simp only [step] at hs
+    split at hs
+    · cases hs
+    · split at hs
+      · rename_i t' ht
+        injection hs with hs; subst hs
+        exact AuxP.edgeCollapse_le c adj s.t t' ht p
+      · cases hs
+  | collapseClade c =>
+    simp only [step] at hs
+    split at hs
+    · cases hs
+    · injection hs with hs; subst hs; exact AuxP.collapseClade_le c s.t p
+  | reseedAt target a b =>
+    simp only [step] at hs
+    split at hs
+    · cases hs
+    · injection hs with hs; subst hs; exact AuxP.reseedAt_le target a b s p
+  | rerootAtNode target ub a b =>
+    simp only [step] at hs
+    split at hs
+    · cases hs
+    · injection hs with hs; subst hs; exact AuxP.rerootAtNode_le target ub a b s p
+  | rerootAtEdge head l1 l2 ub sp =>
+    simp only [step] at hs
+    split at hs
+    · cases hs
+    · rename_i hg
+      injection hs with hs; subst hs
+      have hne : s.t.id ≠ head := by intro e; apply hg; simp [e]
+      unfold rerootAtEdge
+      split
+      · rename_i tail sub _ hf
+        refine Nat.le_trans (AuxP.rerootAtNode_le _ ub sp true _ p) ?_
+        apply AuxP.regraft_pc hw hne hf p
+        simp
+      · exact Nat.le_refl _
+  | toOutgroup og sp =>
+    simp only [step] at hs
+    split at hs
+    · cases hs
+    · injection hs with hs; subst hs; exact AuxP.toOutgroup_le og sp s p
+  | suppressUnif =>
+    simp only [step] at hs
+    injection hs with hs; subst hs; exact AuxP.sup_le s.t p
+  | collapseBasal su =>
+    simp only [step] at hs
+    injection hs with hs; subst hs; exact AuxP.collapseBasalSt_le su s p
+  | polytomize su =>
+    simp only [step] at hs
+    injection hs with hs; subst hs; exact AuxP.polytomize_le _ s.t p
+  | collapseUnweighted thr ub =>
+    simp only [step] at hs
+    injection hs with hs; subst hs
+    split
+    · exact Nat.le_trans (AuxP.encodeStruct_le _ _ _ p) (AuxP.cu_le thr s.t p)
+    · exact AuxP.cu_le thr s.t p
+  | resolve limit ub =>
+    simp only [step] at hs
+    split at hs
+    · cases hs
+    · injection hs with hs; subst hs
+      have h1 := AuxP.rp_pc limit s.t (maxId s.t + 1) p
+      split
+      · exact Nat.le_trans (AuxP.encodeStruct_le _ _ _ p) h1
+      · exact h1
+  | pruneSubtree c ub sp =>
+    simp only [step] at hs
+    split at hs
+    · cases hs
+    · unfold pruneSubtree at hs
+      split at hs
+      · cases hs
+      · injection hs with hs; subst hs
+        exact Nat.le_trans (AuxP.finish_le _ _ _ p) (AuxP.pruneUp_le _ c s.t p)
+  | filterLeaves keep r ub sp =>
+    simp only [step] at hs
+    unfold filterLeaves at hs
+    simp only at hs
+    split at hs
+    · cases hs
+    · rename_i t1 ht
+      injection hs with hs; subst hs
+      exact Nat.le_trans (AuxP.finish_le _ _ _ p) (AuxP.loop_le _ _ _ _ _ ht p)
+  | pruneNoTaxa r ub sp =>
+    simp only [step] at hs
+    injection hs with hs; subst hs; exact AuxP.pruneNoTaxa_le r ub sp s p
+  | pruneTaxa bits ub sp =>
+    simp only [step] at hs
+    injection hs with hs; subst hs
+    exact Nat.le_trans (AuxP.pruneNoTaxa_le _ _ _ _ p) (AuxP.pt_le _ s.t p)
+  | retainTaxa bits ub sp =>
+    simp only [step] at hs
+    injection hs with hs; subst hs
+    exact Nat.le_trans (AuxP.pruneNoTaxa_le _ _ _ _ p) (AuxP.pt_le _ s.t p)
+  | ladderize asc =>
+    simp only [step] at hs
+    injection hs with hs; subst hs; exact Nat.le_of_eq (AuxP.sortAll_cnt _ s.t p)
+  | reorder =>
+    simp only [step] at hs
+    injection hs with hs; subst hs; exact Nat.le_of_eq (AuxP.sortAll_cnt _ s.t p)
+  | rotate mode =>
+    simp only [step] at hs
+    injection hs with hs; subst hs; exact Nat.le_of_eq (AuxP.rotate_cnt mode s.t p)
+  | shuffleTaxa rs => exact absurd rfl (hsh rs)
+  | encode a b =>
+    simp only [step] at hs
+    injection hs with hs; subst hs; exact AuxP.encodeStruct_le a b s p
+  | setSeed n =>
+    simp only [step] at hs
+    split at hs
+    · cases hs
+    · rename_i sub hf
+      injection hs with hs; subst hs; exact AuxP.find_le n s.t sub hf p
+  | reorient k mode =>
+    simp only [step] at hs
+    split at hs
+    · cases hs
+    · injection hs with hs; subst hs
+      simp only
+      rw [AuxP.rotate_cnt]
+      split
+      · exact AuxP.toOutgroup_le _ _ s p
+      · exact AuxP.reseedAt_le _ _ _ s p
+
+/-- **Clause (b), converse direction (no GAIN), under the explicit scope "no internal node carries a taxon".**  On a tree
+without shared nodes in which only leaves carry taxa, for every operation except `shuffle_taxa`: no taxon-bearing leaf
+appears that was not a taxon-bearing leaf before (same node, same taxon), except on nodes the operation itself created
+(`new_child` / `insert_new_child` with a taxon, re-attached subtrees: ids above `maxId`).  With `step_keeps_leaves`
+(nothing lost unless asked) this is "the multiset of leaf taxa changes only by the taxa the operation was asked to
+remove" — or to add.  WITHOUT the scope hypothesis the statement is false (a taxon-bearing internal node whose children
+are all removed becomes a taxon-bearing leaf, in the model and in the library alike); see the report / harness note. -/
+theorem step_no_new_leaf (s s' : St) (op : Op) (p : Nat × Nat) (hw : WF s.t) (hin : AuxP.InnerUntaxed s.t)
+    (hsh : ∀ rs, op ≠ .shuffleTaxa rs) (hs : step s op = .ok s') :
+    Leaves.lc p s'.t ≤ Leaves.lc p s.t ∨ maxId s.t < p.1 := by
+  by_cases hp : p.1 ≤ maxId s.t
+  · left
+    exact Nat.le_trans (AuxP.lc_le_pc p s'.t)
+      (Nat.le_trans (step_no_new_node_taxon s s' op p hw hsh hs hp) (AuxP.pc_le_lc p s.t hin))
+  · right; omega
+
+
+/-- non-vacuity: `exTree` is in scope (only leaves carry taxa) … -/
+example : AuxP.InnerUntaxed exTree := by simp [AuxP.InnerUntaxed, AuxP.InnerUntaxedL, exTree]
+/-- … and the scope hypothesis is what makes the theorem true: a unary seed that carries taxon 7 becomes a taxon-bearing
+leaf when the tree is re-seeded at its child (the conclusion fails, the hypothesis too) -/
+def exInnerTaxon : T :=
+  .node 0 (some 7) none none [.node 1 none none none [.node 2 (some 1) none none [], .node 3 (some 2) none none []]]
+example : ¬ AuxP.InnerUntaxed exInnerTaxon := by simp [AuxP.InnerUntaxed, exInnerTaxon]
+example : Leaves.lc (0, 7) exInnerTaxon = 0 ∧
+    ((step { t := exInnerTaxon, rooted := some true } (.reseedAt 1 false false)).toOption.map
+      (fun s' => Leaves.lc (0, 7) s'.t)) = some 1 := by decide
+/-- a gain the theorem allows: `new_child` with a taxon creates a taxon-bearing leaf on a fresh id -/
+example : ((step { t := exTree, rooted := none } (.newChild 4 (some 9) none)).toOption.map
+    (fun s' => (Leaves.lc (7, 9) s'.t, decide (maxId exTree < 7)))) = some (1, true) := by decide
+
 
 end DendroModel.C03
